@@ -16,7 +16,7 @@ R4 = {
          "it then sends exactly its reported limit: the peer fails the HTLC back (FeeSpikeBuffer), with >= 8 such HTLCs it answers `error` and force-closes",
    checks={"random `limits` profile with the new amount classes only (3 seeds x 300 runs on a scratch copy with the change)": "accepted -- MISSED (the window is hit, but rarely on a quiet channel at the limit)",
            "tools/trial.sh s4c01 <patch> + `windowlimit` family (200 scripts)": "rejected (run 26: update_fail_htlc for an HTLC inside the reported limits sent on a quiet channel -- rule mustAcc); the same scripts are accepted on the unchanged tree",
-           "tools/rehearse.sh r4a C01 <patch> quick": "PENDING"},
+           "tools/rehearse.sh r4a C01 <patch> quick": "exit 1, 7 VIOLATION lines (5 more than the same run without the change: windowlimit and limits runs rejected at the peer's update_fail_htlc / error); that baseline run also showed a false alarm of the first version of the new rule (holdcell run 143: later sends changed what the recipient decided on) -- the rule was narrowed to a lone HTLC and the trial repeated: clean accepted, change rejected"},
    detected=["C01 (after strengthening)"]),
  "C02-5": dict(property="C02",
    what="ChannelManager::handle_monitor_update_release: when one upstream preimage write completes, the outbound channel's whole actions_blocking_raa_monitor_updates entry "
@@ -37,20 +37,21 @@ R4 = {
    needs="initial persist_new_channel InProgress, a second update handed over while it is in flight (a peer's shutdown without upfront shutdown script), completions out of order (id 1 before id 0)",
    checks={"./check C09 quick (first version)": "MISSED by construction (the observer cleared 'first write in flight' on ANY completion of that channel; no second update before the first completes)",
            "tools/trial.sh s4c09 <patch> + `openshut` family (200 scripts), after id-aware newInfl, the op close_extra and cfg upfront_shutdown=false": "rejected (run 1: channel_ready after `complete id 1` while the first write, id 0, is still in flight); accepted on the unchanged tree",
-           "tools/rehearse.sh r4c C09 <patch> quick": "PENDING"},
+           "tools/rehearse.sh r4c C09 <patch> quick": "exit 1, 5 VIOLATION lines; baseline exit 0"},
    detected=["C09 (after strengthening)"]),
  "C10-f": dict(property="C10",
    what="impl Writeable for FundedChannel: TLV 10 (monitor_pending_update_adds) is written iff monitor_pending_forwards is non-empty (wrong variable): an inbound HTLC made "
         "irrevocable by a revocation whose monitor update was still in flight when the manager was written is never decoded after the restart",
    needs="asynchronous persistence; manager written while the update of the peer's final revoke_and_ack is in flight; crash and restart from that manager",
-   checks={"tools/rehearse.sh r4b C10 <patch> quick": "PENDING"},
-   detected=[]),
+   checks={"tools/rehearse.sh r4b C10 <patch> quick (first version)": "exit 0 -- MISSED (the `inflight` family switches to asynchronous persistence only after the HTLCs are irrevocable)",
+           "tools/trial.sh s4c10 <patch> + `inflightadd` family (300 scripts: persistence goes asynchronous right before the revocation that commits the inbound HTLCs, manager written there, crash)": "rejected (run 4: an HTLC pending at the crash is still pending at the end of the wound-down run); accepted on the unchanged tree"},
+   detected=["C10 (after strengthening)"]),
  "C12-5": dict(property="C12",
    what="impl Writeable for ChannelUpdateStatus: the four arms merged by variant name (Enabled|EnabledStaged -> 0, Disabled|DisabledStaged -> 1) instead of by what was last announced",
    needs="announced channel; peer away (or back) for fewer timer ticks than the staging threshold; manager written in that staged state, re-read; more ticks",
    checks={"./check C12 quick (first version)": "MISSED by construction (BroadcastChannelUpdate was not recorded)",
            "tools/trial.sh s4c12 <patch> + behaviours of GossipStatus.tla (200 scripts)": "rejected (run 4, at a `tick`: the channel has been live / not live for the bound and the network was not told); accepted on the unchanged tree",
-           "tools/rehearse.sh r4b C12 <patch> quick": "PENDING"},
+           "tools/rehearse.sh r4b C12 <patch> quick": "exit 1, 5 VIOLATION lines; baseline exit 0"},
    detected=["C12 (after strengthening)"]),
  "C07-5": dict(property="C07",
    what="KeysManager::sign_spendable_outputs_psbt: the per-channel signer cache (get_or_insert_with) no longer re-derives the signer when the cached channel_keys_id differs: "
@@ -67,7 +68,7 @@ R4 = {
    what="OnchainTxHandler::blocks_disconnected: entry.height > new_best_height became >=: events recorded in the fork-point block itself are treated as reorganised out: "
         "the input the cheater's HTLC-timeout spent in that block goes back into the victim's aggregated justice claim, which can never confirm again",
    needs="aggregated justice claim (to_local + offered HTLC), the cheater's HTLC-timeout confirms one input in block B while the claim is unmined, a reorg whose fork point is exactly B",
-   checks={"tools/rehearse.sh r4c C06 <patch> quick": "PENDING"},
+   checks={"tools/rehearse.sh r4c C06 <patch> quick": "exit 0 -- MISSED: the unwind schedules reach the violation (JusticeCovers fails in other runs than on the unchanged tree) but the classifier of the known finding split_remainder_abandoned files it under that key (a waiver that is too broad); narrowing delegated (builder onchain5)"},
    detected=[]),
  "C11-5": dict(property="C11",
    what="OnchainTxHandler::update_claims_view_from_matched_txn records the ContentiousOutpoint event at cur_height instead of conf_height",
